@@ -310,3 +310,7 @@ impl Parent {
         Ok(result)
     }
 }
+
+#[cfg(kani)]
+#[path = "/verif/harness/archiver_parent.rs"]
+pub(crate) mod verif_harness;
